@@ -425,6 +425,26 @@ class Engine:
 			status, decoded, _ = self.impl_decode(type_name, again)
 			if 'ok' != status or decoded != net.to_wire(type_name, obj):
 				ctx.fail('property', f'{net.name}.{type_name}: the encoding of the re-keyed and re-sorted value does not decode to it ({status})', dict(ident, member=field['name'], bytes=again.hex().upper()))
+			# two neighbours given one key in place: no order makes such a value encodable (the decoder refuses equal neighbours, so
+			# the encoder must as well), before and after sort()
+			twin = codec.guarded(net.cls(type_name).deserialize, case['data'])
+			twins = getattr(twin, attribute, None)
+			if isinstance(twins, list) and len(twins) >= 2:
+				twin.sort()
+				twins = getattr(twin, attribute)
+				c12.KeyedArrayCheck(ctx, net, self, type_name, field).copy_key(twins[0], twins[1])
+				ctx.count('history:equal-keys-after-decode')
+				for stage in ('as it is', 'after sort()'):
+					try:
+						produced = bytes(twin.serialize())
+					except Exception:  # pylint: disable=broad-except
+						produced = None
+					if produced is not None:
+						ctx.fail('property', (
+							f'{net.name}.{type_name}: serialize() accepts the array {field["name"]} with two neighbouring entries of one key ({stage}); '
+							'its own decoder refuses those bytes'), dict(ident, member=field['name'], bytes=produced.hex().upper()))
+						break
+					twin.sort()
 
 	def reorder_mutants(self, type_name, obj, data, spans):
 		"""Encodings in which the elements of one array member are rearranged (two neighbours swapped - the first pair, a later
